@@ -218,11 +218,15 @@ def build_and_run(h, work, tier, keep=False):
         return res
     props = None
     msgs = []
+    errs = []
     for e in data:
         if "result" in e:
             props = e["result"]
         if "messageText" in e:
             msgs.append(e["messageText"])
+            if e.get("messageType") == "ERROR":
+                errs.append(e["messageText"])
+    res["tool_errors"] = errs[:5]
     alltxt = "\n".join(msgs)
     for m in re.finditer(r"Runtime decision procedure: ([0-9.e+-]+)s", alltxt):
         res["solver_s"] += float(m.group(1))
@@ -264,7 +268,8 @@ def classify(h, res):
         return
     if other:
         res["status"] = "undecided"
-        res["reason"] = "cbmc returned status " + other[0]["status"] + " for " + other[0]["property"]
+        res["reason"] = ("cbmc returned status " + other[0]["status"] + " for " + other[0]["property"] + " ("
+                         + "; ".join(res.get("tool_errors", []))[:300] + ")")
         return
     # vacuity guards
     if len(canaries) < h["canaries"]:
